@@ -4,13 +4,7 @@ The step-level halves that ARE proved are in `AfkakProps/C01.lean`. -/
 namespace Afkak.Props.C01
 open Afkak.Producer Afkak.Monitor.ProducerTrace Afkak.Monitor.C01
 
-/-- when no batch is in flight every dispatched send has fired, given C07's accounting -/
-def C01_fires_exactly_once : Prop := ∀ cfg evs, resolvedFired cfg (traceOf cfg evs) = true
-
 /-- every payload is made of whole, known, distinct sends of its topic -/
 def C01_payload_integrity : Prop := ∀ cfg evs, payloads cfg (traceOf cfg evs) = true
-
-/-- with acks = 0 no send fails with NoResponseError -/
-def C01_acks0_succeeds : Prop := ∀ cfg evs, acks0 cfg (traceOf cfg evs) = true
 
 end Afkak.Props.C01
